@@ -497,7 +497,11 @@ def collect_variable_lookup(
                 len(closure_cells), len(freevars))
 
         for cell, freevar in zip(closure_cells, freevars):
-            closure_dict[freevar] = cell.cell_contents
+            try:
+                closure_dict[freevar] = cell.cell_contents
+            except ValueError:
+                # The cell is empty: the variable of the enclosing scope has not been bound yet.
+                pass
 
     variable_lookup.append(closure_dict)
 
